@@ -1,7 +1,8 @@
 /-
 Driver/C04 — runs the executable models of the local storage (Model/Archive, Model/Container,
 with the C05 index model Model/Lsm) on protocol lines.  Three streams, selected by the `begin`
-line: `dyn` (DynamicContainer), `inst` (Installation), `arch` (ArchiveManager alone).
+line: `dyn` (DynamicContainer), `inst` (Installation), `arch` (ArchiveManager alone), `lim`
+(an installation on a pre-sized `data.000`: limit arithmetic + index offset across a reopen).
 MD5 = Spec/Md5; zlib / LZ4 are the graph of the (plain, compressed) pairs the request lines carry.
 -/
 import Driver.Common
@@ -18,13 +19,14 @@ def codecOf (t : Tab) : Blte.Codec :=
    fun m c => (t.find? fun e => e.1 == m && e.2.2 == c).map (·.2.1)⟩
 
 def paramsOf (t : Tab) : Archive.Params :=
-  ⟨Spec.Md5.md5, Archive.localHeader, Archive.remapFixed, codecOf t⟩
+  ⟨Spec.Md5.md5, Archive.localHeader, Archive.remapFixed, codecOf t, Archive.keepOnCreateNow⟩
 
 inductive St
   | none
   | dyn (cfg : Lsm.Cfg) (s : Container.State)
   | inst (cfg : Lsm.Cfg) (s : Container.IState)
   | arch (s : Archive.State) (t : Tab)
+  | lim (cfg : Lsm.Cfg)
 
 def fnv64 (b : Bytes) : UInt64 :=
   b.foldl (fun h x => (h ^^^ UInt64.ofNat x.toNat) * 0x100000001b3) 0xcbf29ce484222325
@@ -96,7 +98,32 @@ def instOp? : List String → Option Container.IOp
   | ["r", k] => (key? k).map .read
   | ["q", k] => (key? k).map .has
   | ["reopen"] => some .reopen
+  | ["open"] => some .openOnly
+  | ["init"] => some .init
   | _ => none
+
+/-- `lw pos fill n`: an installation on a directory whose `data.000` has `pos` bytes and no index
+file; `write_file(n × fill)`, the entry the index then holds, drop + open + initialize, the entry
+again.  Only the limit arithmetic (`Archive.placeAt`) and the index (`Lsm`) are involved, so the
+file content is never materialised. -/
+def limLine (cfg : Lsm.Cfg) (pos fill n : Nat) : String :=
+  let d : Bytes := List.replicate n (BitVec.ofNat 8 fill)
+  match Archive.blteOf (codecOf []) d .none with
+  | .error e => errName e
+  | .ok blte =>
+  match Archive.placeAt pos blte.length with
+  | .error e => errName e
+  | .ok (off, total) =>
+    let k := Container.key9 (Spec.Md5.md5 blte)
+    match Lsm.step cfg Lsm.State.init (.add k 0 off total) with
+    | (ix, .ok) =>
+      let ix1 := Lsm.saveAll ix
+      let show? : Option Spec.IndexMap.Entry → String
+        | some e => toString e.id ++ ":" ++ toString e.off ++ ":" ++ toString e.size
+        | none => "none"
+      "ok " ++ toString off ++ " " ++ toString total ++ " mem=" ++ show? (Lsm.lookup ix1 k) ++
+        " reopened=" ++ show? (Lsm.lookup (Lsm.reload ix1) k)
+    | (_, _) => "err:other"
 
 def u16? (s : String) : Option Nat := s.toNat?.bind fun n => if n < 2 ^ 16 then some n else none
 def u32? (s : String) : Option Nat := s.toNat?.bind fun n => if n < 2 ^ 32 then some n else none
@@ -108,11 +135,12 @@ def handle (st : St) (toks : List String) : St × String :=
     | "arch", [h] =>
       if kv? h "hdr=" = some Archive.headerSize then (.arch Archive.State.init [], "ok") else (.none, "ok")
     | k, [cp, pp, h] =>
-      if k ≠ "dyn" ∧ k ≠ "inst" then (st, "bad-op") else
+      if k ≠ "dyn" ∧ k ≠ "inst" ∧ k ≠ "lim" then (st, "bad-op") else
       match kv? cp "cap_pages=", kv? pp "per_page=", kv? h "hdr=" with
       | some cp, some pp, some h =>
         if h ≠ Archive.headerSize then (.none, "ok")
         else if k = "dyn" then (.dyn ⟨cp, pp⟩ Container.State.init, "ok")
+        else if k = "lim" then (.lim ⟨cp, pp⟩, "ok")
         else (.inst ⟨cp, pp⟩ Container.IState.init, "ok")
       | _, _, _ => (st, "bad-op")
     | _, _ => (st, "bad-op")
@@ -135,8 +163,18 @@ def handle (st : St) (toks : List String) : St × String :=
         let (s', o) := Container.istep (paramsOf []) cfg s op
         (.inst cfg s', showIOut o)
       | none => (st, "bad-op")
+    | .lim cfg =>
+      match toks with
+      | [op, pos, f, n] =>
+        if op ≠ "lw" ∧ op ≠ "lwd" then (st, "bad-op") else
+        match pos.toNat?, f.toNat?, n.toNat? with
+        | some pos, some f, some n =>
+          if f < 256 ∧ n ≤ 2 ^ 20 ∧ pos ≤ 2 ^ 34 then (st, limLine cfg pos f n) else (st, "bad-op")
+        | _, _, _ => (st, "bad-op")
+      | _ => (st, "bad-op")
     | .arch s t =>
       match toks with
+      | ["anew"] => (.arch (Archive.dropOpen s) t, "ok")
       | ["aw", m, p, f, n, comp] =>
         let mode? : Option Blte.Mode := if m = "N" then some .none else if m = "Z" then some .zlib
           else if m = "4" then some .lz4 else none
